@@ -537,6 +537,25 @@ func TestC06(t *testing.T) {
 					if g3 != w3 || (n3 > 0) != may3 {
 						rep.Violate("sequence/inbound-then-outbound", fmt.Sprintf("service packet then reply: delivered=%v/%v emitted=%d/%v peer=%s proto=%d; %s", g3, w3, n3, may3, who(peer), proto, c), c.String())
 					}
+					// (f) a denied flow stays denied after pauses shorter than the state expiry,
+					// with and without the cleaner running in between.
+					for _, pause := range []time.Duration{11 * time.Second, 31 * time.Second, 5 * time.Minute} {
+						sport += 2
+						in6 := inbound{peer, proto, 81, peer, iR, 0}
+						w6 := tw.refInbound(in6, sport)
+						g6, _, _ := tw.sendInbound(in6, sport)
+						time.Sleep(pause)
+						if pause == 31*time.Second {
+							_ = tw.r.Router().VerifClean()
+						}
+						g6b, _, _ := tw.sendInbound(in6, sport)
+						g6c, _, _ := tw.sendInbound(in6, sport)
+						evals++
+						nontrivial++
+						if g6 != w6 || g6b != w6 || g6c != w6 {
+							rep.Violate("sequence/verdict-changed-after-pause", fmt.Sprintf("flow judged %v, then %v and %v after a pause of %v (reference %v throughout): peer=%s proto=%d; %s", g6, g6b, g6c, pause, w6, who(peer), proto, c), c.String())
+						}
+					}
 					// (e) verdict expiry: after the connection-state cleaner dropped an old flow
 					// (regular flows: 10 min idle), a packet of that flow is judged afresh by the policy.
 					sport += 2
